@@ -1535,6 +1535,7 @@ def gen_pipe_field(draw, tier="quick"):
         if case["variant"] == "ordinary":
             # Ordinary kriging takes no mean
             case["mean"] = None
+        case["trend_late"] = draw(st.booleans())
     if kind in ("srf", "srf_vector") and draw(st.integers(0, 2)) == 0:
         # variance upscaling by element volumes (scalar or one volume per point): the raw field is the scaled random part
         case["upscale"] = {"how": draw(st.sampled_from(["scalar", "array"])) if kind == "srf" else "scalar", "v": draw(st.sampled_from([0.05, 1.0, 30.0]))}
@@ -1566,15 +1567,20 @@ def _mk_krige(case):
     ccoords = [np.asarray(a, dtype=float) for a in case["cond_pos"]]
     tr_c = eval_func_ref(case["trend"], ccoords, False, case["dim"])
     cond_val = np.array(case["cond_x"], dtype=float) + tr_c
+    late = bool(case.get("trend_late")) and case["trend"] is not None
+    tr_arg = mk_func(case["trend"]) if not late else None
     if case["variant"] == "simple":
         k = gs.krige.Simple(
             _mk_model(case), cp, cond_val.copy(), mean=mk_func(case["mean"]) if case["mean"] else 0.0,
-            normalizer=_norm_arg(case), trend=mk_func(case["trend"]),
+            normalizer=_norm_arg(case), trend=tr_arg,
         )
     else:
         k = gs.krige.Ordinary(
-            _mk_model(case), cp, cond_val.copy(), normalizer=_norm_arg(case), trend=mk_func(case["trend"]),
+            _mk_model(case), cp, cond_val.copy(), normalizer=_norm_arg(case), trend=tr_arg,
         )
+    if late:
+        # the trend is assigned to the existing object through its public property (the pipeline reads it at call time)
+        k.trend = mk_func(case["trend"])
     return k, cond_val, tr_c, ccoords
 
 
